@@ -35,5 +35,14 @@ PROPS = {
         "explanation": "Lean theorems: batch control-flow model returns one aligned result per member and accepts iff well-formed and every member valid, for every chunk size, batch size and order; chunk algebra: all-valid => sum vanishes, one invalid => rejected, at most one cancelling weight. Tie: real Ok/Err and mask pattern equal the model's on every generated batch; oracle: real batch verdict = conjunction of real singleton verdicts, length k, i-th mask = i-th member's blinding.",
         "assumptions": COMMON_ASSUME + ["batch weights behave as a random oracle output (wrongful acceptance probability <= 1/l, theorem C03_chunk_at_most_one_weight)", "requires fix: commit e4bc4a5 in /repo"],
     },
+    "C15": {
+        "level": "proof",
+        "theorems": T("C15_accept_iff", "C15_reencode", "C15_roundtrip", "C15_length", "C15_zero_rounds"),
+        "leancheck": ["Bpp.CodecThm"],
+        "scenarios": [{"name": "C15"}],
+        "rule": "byte strings: structured (tag x rounds x length offsets), scalar slots at the canonical boundary, every length, random, and prover outputs; distinct = input classes x 10 (conservative)",
+        "explanation": "Lean theorems (core Lean, all byte strings): decode b = some p <-> p well-formed and encode p = b; re-encoding identical; length formula; zero-round boundary. Tie: model decode/encode = from_bytes/to_bytes on every generated string; oracle: independent acceptance predicate, re-encode identity, serde/bincode accepts and produces the same strings, prover outputs round-trip (except the known finding bits=1, agg=1).",
+        "assumptions": ["Scalar::from_canonical_bytes accepts exactly the 32-byte little-endian encodings below l (checked by the scalar-boundary class)", "compressed points are opaque 32-byte strings at decode time"],
+    },
 }
 NOT_CLAIMED = {}
